@@ -1,13 +1,375 @@
 //! C06 — size trigger rolls exactly when the limit is exceeded; size accounting is exact.
-//! Real code: `RollingFileAppender` + `CompoundPolicy(SizeTrigger, roller)` wrapped in the harness
-//! `Policy` probe of `c05.rs`, which compares `LogFile::len_estimate()` with
-//! `fs::metadata(path).len()` at every consultation. Case format and executor are those of C05.
-use crate::c05::{self, Case, RollSpec, TrigChoice, TrigSpec};
-use crate::c04::RecSpec;
+//! Real code: `RollingFileAppender` + `CompoundPolicy(SizeTrigger, roller)` behind a harness `Policy`
+//! that records EVERY consultation made while an operation runs: `LogFile::len_estimate()` against
+//! `fs::metadata(path).len()`.
+//!  * `seq`  the case format and executor of C05 (one probe value per op);
+//!  * `seq6` own executor: the trigger is built from a YAML document through `SizeTriggerConfig` /
+//!           `SizeTriggerDeserializer` (`limit: 10 kb`, `limit: 4097`, …), all consultations of an op are
+//!           reported, and `R<a|t>:<limit>` restarts the appender with ANOTHER mode and/or limit on the
+//!           same directory; `e<n>!` (failing encoder), `f<k>!` (rotation step fails), `g!` (roller
+//!           reports Err after its work) as in C05.
+use crate::c04::{RecSpec, ScriptEncoder};
+use crate::c05::{self, parse_op, pattern, Case, Env, OpSpec, RollSpec, TrigChoice, TrigSpec};
 use crate::proto::*;
 use crate::rng::Rng;
+use log4rs::append::rolling_file::policy::compound::roll::delete::DeleteRoller;
+use log4rs::append::rolling_file::policy::compound::roll::fixed_window::FixedWindowRoller;
+use log4rs::append::rolling_file::policy::compound::roll::Roll;
+use log4rs::append::rolling_file::policy::compound::trigger::size::{SizeTriggerConfig, SizeTriggerDeserializer};
+use log4rs::append::rolling_file::policy::compound::trigger::Trigger;
+use log4rs::append::rolling_file::policy::compound::CompoundPolicy;
+use log4rs::append::rolling_file::policy::Policy;
+use log4rs::append::rolling_file::{LogFile, RollingFileAppender};
+use log4rs::config::{Deserialize, Deserializers};
+use std::path::Path;
+use std::sync::atomic::{AtomicBool, AtomicU64, Ordering};
+use std::sync::{Arc, Mutex};
 
 const LIMITS: &[u64] = &[0, 1, 7, 1024, 1025];
+
+#[derive(Debug)]
+struct ProbeAll {
+    inner: CompoundPolicy,
+    probe: Arc<Mutex<Vec<(u64, u64)>>>,
+}
+
+impl Policy for ProbeAll {
+    fn process(&self, log: &mut LogFile) -> anyhow::Result<()> {
+        let shown = log.len_estimate();
+        let actual = std::fs::metadata(log.path()).map(|m| m.len()).unwrap_or(u64::MAX);
+        self.probe.lock().unwrap().push((shown, actual));
+        self.inner.process(log)
+    }
+    fn is_pre_process(&self) -> bool {
+        self.inner.is_pre_process()
+    }
+}
+
+#[derive(Debug)]
+struct CountingRoller {
+    inner: Box<dyn Roll>,
+    calls: Arc<AtomicU64>,
+    late_fail: Arc<AtomicBool>,
+}
+
+impl Roll for CountingRoller {
+    fn roll(&self, file: &Path) -> anyhow::Result<()> {
+        self.calls.fetch_add(1, Ordering::SeqCst);
+        let r = self.inner.roll(file);
+        if r.is_ok() && self.late_fail.swap(false, Ordering::SeqCst) {
+            anyhow::bail!("roller reports a failure after doing its work");
+        }
+        r
+    }
+}
+
+/// the literal the limit is written as in the configuration document
+fn limit_literal(limit: u64) -> String {
+    if limit > 0 && limit % (1024 * 1024) == 0 {
+        format!("{} MiB", limit / (1024 * 1024))
+    } else if limit > 0 && limit % 1024 == 0 {
+        format!("{} kb", limit / 1024)
+    } else if limit % 2 == 0 {
+        format!("{}", limit)
+    } else {
+        format!("{} b", limit)
+    }
+}
+
+/// `SizeTrigger` through the configuration path: YAML → `SizeTriggerConfig` → `SizeTriggerDeserializer`
+fn trigger_from_config(limit: u64) -> Box<dyn Trigger> {
+    let doc = format!("limit: {}", limit_literal(limit));
+    let cfg: SizeTriggerConfig = serde_yaml::from_str(&doc).expect("size trigger config");
+    SizeTriggerDeserializer.deserialize(cfg, &Deserializers::default()).expect("size trigger")
+}
+
+fn build6(env: &Env, append: bool, limit: u64, probe: &Arc<Mutex<Vec<(u64, u64)>>>) -> RollingFileAppender {
+    let roller: Box<dyn Roll> = match &env.case.roll {
+        RollSpec::Delete => Box::new(DeleteRoller::new()),
+        RollSpec::Fw { base, count, pat } => {
+            let p = format!("{}/{}", env.scratch.path().display(), pattern(*pat));
+            Box::new(FixedWindowRoller::builder().base(*base).build(&p, *count).unwrap())
+        }
+    };
+    let roller: Box<dyn Roll> =
+        Box::new(CountingRoller { inner: roller, calls: env.roll_calls.clone(), late_fail: env.late_fail.clone() });
+    let policy = ProbeAll { inner: CompoundPolicy::new(trigger_from_config(limit), roller), probe: probe.clone() };
+    RollingFileAppender::builder()
+        .append(append)
+        .encoder(Box::new(ScriptEncoder::new()))
+        .build(&env.path, Box::new(policy))
+        .unwrap()
+}
+
+enum Op6 {
+    Plain(OpSpec),
+    Reconf(bool, u64),
+}
+
+fn parse_op6(s: &str) -> Option<Op6> {
+    if let Some(rest) = s.strip_prefix('R') {
+        let (m, l) = rest.split_once(':')?;
+        let append = match m {
+            "a" => true,
+            "t" => false,
+            _ => return None,
+        };
+        return Some(Op6::Reconf(append, l.parse().ok()?));
+    }
+    parse_op(s).map(Op6::Plain)
+}
+
+fn exec_seq6(f: &[&str]) -> String {
+    if f.len() != 7 {
+        return "bad-case".to_owned();
+    }
+    let case = match Case::parse(&f[..6]) {
+        Some(c) => c,
+        None => return "bad-case".to_owned(),
+    };
+    let limit0 = match &case.trig {
+        TrigSpec::Size(n) => *n,
+        _ => return "bad-case".to_owned(),
+    };
+    let mut ops = vec![];
+    for o in dec_list(',', f[6]) {
+        match parse_op6(&o) {
+            Some(o) => ops.push(o),
+            None => return "bad-case".to_owned(),
+        }
+    }
+    let has_hook = case.roll.has_hook();
+    let mut mode = case.append;
+    let mut limit = limit0;
+    let env = Env::new(case, "c06");
+    let probe: Arc<Mutex<Vec<(u64, u64)>>> = Arc::new(Mutex::new(vec![]));
+    let r = guarded(std::panic::AssertUnwindSafe(|| {
+        let mut out = vec![];
+        let mut app = Some(build6(&env, mode, limit, &probe));
+        out.push(format!("-!-!0!{}", env.snapshot()));
+        for op in &ops {
+            probe.lock().unwrap().clear();
+            env.roll_calls.store(0, Ordering::SeqCst);
+            let res = match op {
+                Op6::Reconf(m, l) => {
+                    drop(app.take());
+                    mode = *m;
+                    limit = *l;
+                    app = Some(build6(&env, mode, limit, &probe));
+                    "-"
+                }
+                Op6::Plain(OpSpec::Restart) => {
+                    drop(app.take());
+                    app = Some(build6(&env, mode, limit, &probe));
+                    "-"
+                }
+                Op6::Plain(OpSpec::Tick(dt)) => {
+                    env.clock.fetch_add(*dt, Ordering::SeqCst);
+                    "-"
+                }
+                Op6::Plain(OpSpec::Append(r, fault)) => {
+                    env.arm_fault(if has_hook { *fault } else { None });
+                    let res = r.append_to(app.as_ref().unwrap());
+                    env.arm_fault(None);
+                    if res.is_ok() {
+                        "ok"
+                    } else {
+                        "err"
+                    }
+                }
+                Op6::Plain(OpSpec::AppendLate(r)) => {
+                    env.late_fail.store(true, Ordering::SeqCst);
+                    let res = r.append_to(app.as_ref().unwrap());
+                    env.late_fail.store(false, Ordering::SeqCst);
+                    if res.is_ok() {
+                        "ok"
+                    } else {
+                        "err"
+                    }
+                }
+                Op6::Plain(OpSpec::AppendEncFail(r, n)) => {
+                    if r.append_failing(app.as_ref().unwrap(), Some(*n)).is_ok() {
+                        "ok"
+                    } else {
+                        "err"
+                    }
+                }
+            };
+            let consults: Vec<String> = probe.lock().unwrap().iter().map(|(a, b)| format!("{}={}", a, b)).collect();
+            let consult = if consults.is_empty() { "-".to_owned() } else { consults.join("+") };
+            out.push(format!("{}!{}!{}!{}", res, consult, env.roll_calls.load(Ordering::SeqCst), env.snapshot()));
+        }
+        drop(app);
+        out.join(",")
+    }));
+    drop(env);
+    r.unwrap_or_else(|_| "PANIC".to_owned())
+}
+
+pub fn exec(fields: &[&str]) -> String {
+    match fields.first() {
+        Some(&"seq6") => exec_seq6(&fields[1..]),
+        _ => c05::exec(fields),
+    }
+}
+
+// ---------------------------------------------------------------------------------------------
+// generator
+// ---------------------------------------------------------------------------------------------
+fn bin(id: u64, sizes: Vec<u64>) -> String {
+    RecSpec::Bin { id, sizes }.render()
+}
+
+/// a text of exactly `bytes` UTF-8 bytes made of 1/2/3/4-byte characters (mix chosen by `salt`)
+fn text_of_bytes(bytes: u64, salt: u64) -> String {
+    let units: [(&str, u64); 4] = [("a", 1), ("é", 2), ("€", 3), ("😀", 4)];
+    let mut s = String::new();
+    let mut left = bytes;
+    let mut k = salt;
+    while left > 0 {
+        let (c, w) = units[(k % 4) as usize];
+        k = (k / 4).wrapping_add(k.wrapping_mul(3)).wrapping_add(1) % 1_000_003;
+        if w <= left {
+            s.push_str(c);
+            left -= w;
+        } else {
+            s.push('a');
+            left -= 1;
+        }
+    }
+    s
+}
+
+const MID_LIMITS: &[u64] = &[1026, 2047, 2048, 2049, 3000, 4096, 4097, 10 * 1024, 16 * 1024, 65536, 1024 * 1024, 1 << 31, (1 << 32) + 1, 1 << 40, (1 << 62) + 5];
+
+fn gen_limit6(rng: &mut Rng) -> u64 {
+    match rng.below(10) {
+        0 | 1 => *rng.pick(&[0u64, 1, 7, 100, 1023, 1024, 1025]),
+        2..=6 => *rng.pick(&MID_LIMITS[..9]),
+        7 => *rng.pick(&MID_LIMITS[9..]),
+        8 => rng.range(1026, 12000),
+        _ => *rng.pick(&[(1u64 << 63) - 1, 1 << 63, u64::MAX]),
+    }
+}
+
+/// a record sized relative to what is still missing to the limit (`room`) and to the 1 KiB buffer
+fn gen_record6(rng: &mut Rng, id: u64, room: u64, budget: &mut u64) -> RecSpec {
+    let room = room.min(20000);
+    let r = match rng.below(14) {
+        0 => RecSpec::Bin { id, sizes: vec![room] },
+        1 => RecSpec::Bin { id, sizes: vec![room + 1] },
+        2 => RecSpec::Bin { id, sizes: vec![room.saturating_sub(1)] },
+        3 => RecSpec::Bin { id, sizes: vec![*rng.pick(&[0u64, 1, 1023, 1024, 1025, 2048, 3000, 4096])] },
+        4 => {
+            let a = rng.range(0, room);
+            RecSpec::Bin { id, sizes: vec![a, room - a, rng.below(2)] }
+        }
+        // multi-byte text landing on / just past the limit and around the buffer size
+        5 => RecSpec::Text { id, text: text_of_bytes(room, rng.below(1000)) },
+        6 => RecSpec::Text { id, text: text_of_bytes(room + 1 + rng.below(3), rng.below(1000)) },
+        7 => RecSpec::Text { id, text: text_of_bytes(*rng.pick(&[1022u64, 1023, 1024, 1025, 1026, 2049]), rng.below(1000)) },
+        8 => RecSpec::Text { id, text: (*rng.pick(&["", "é", "héllo wörld", "日本語", "😀😀", "naïve café\n", "€"])).to_owned() },
+        9 => RecSpec::Bin { id, sizes: vec![rng.range(1000, 1100)] },
+        10 => RecSpec::Bin { id, sizes: vec![rng.range(0, room / 2 + 1)] },
+        _ => RecSpec::Bin { id, sizes: vec![rng.range(0, 40)] },
+    };
+    let sz = r.bytes().len() as u64;
+    if sz > *budget {
+        RecSpec::Bin { id, sizes: vec![rng.range(0, 6)] }
+    } else {
+        *budget -= sz;
+        r
+    }
+}
+
+fn gen_seq6(rng: &mut Rng, thorough: bool) -> String {
+    let n_ops = if rng.chance(1, 14) { 0 } else { rng.range(1, if thorough { 40 } else { 16 }) as usize };
+    let mut limit = gen_limit6(rng);
+    let roll = c05::gen_roller(rng);
+    let mut append = rng.chance(3, 5);
+    let small = limit.min(12000);
+    let pre_active = match rng.below(6) {
+        0 => None,
+        1 => Some(0),
+        2 => Some(small),
+        3 => Some(small + 1),
+        4 => Some(small.saturating_sub(1)),
+        _ => Some(rng.range(0, small + 1100)),
+    };
+    let mut pre_arch = vec![];
+    if let RollSpec::Fw { base, count, .. } = &roll {
+        for j in 0..rng.range(0, *count as u64) as u32 {
+            pre_arch.push((base + j, rng.range(0, 30)));
+        }
+    }
+    let faults_ok = roll.has_hook();
+    let compress = matches!(&roll, RollSpec::Fw { pat, .. } if *pat == 2 || *pat == 3);
+    let count = match &roll {
+        RollSpec::Fw { count, .. } => *count as u64,
+        _ => 0,
+    };
+    let case = Case { append, pre_active, pre_arch, trig: TrigSpec::Size(limit), roll, clock0: 1_700_000_000 + rng.below(200) as i64 };
+    let mut budget: u64 = if thorough { 24000 } else { 12000 };
+    // running size of the active file as the statement sees it (None after a rotation)
+    let mut size: u64 = if append { pre_active.unwrap_or(0) } else { 0 };
+    let mut ops = vec![];
+    for i in 0..n_ops {
+        let k = rng.below(24);
+        if k == 0 {
+            ops.push("r".to_owned());
+            if !append {
+                size = 0;
+            }
+        } else if k == 1 || k == 2 {
+            // restart with a changed configuration: limit lowered below / raised above the current size, mode flipped
+            let new_limit = match rng.below(5) {
+                0 => size.saturating_sub(1 + rng.below(3)),
+                1 => size,
+                2 => size + 1 + rng.below(2000),
+                3 => gen_limit6(rng),
+                _ => limit,
+            };
+            let new_mode = if rng.chance(1, 3) { !append } else { append };
+            ops.push(format!("R{}:{}", if new_mode { "a" } else { "t" }, new_limit));
+            append = new_mode;
+            limit = new_limit;
+            if !append {
+                size = 0;
+            }
+        } else if k == 3 {
+            ops.push(format!("c{}", rng.below(100)));
+        } else {
+            let room = limit.saturating_sub(size);
+            let rec = gen_record6(rng, i as u64 + 1, room, &mut budget);
+            let len = rec.bytes().len() as u64;
+            let r = rec.render();
+            let is_bin = r.starts_with('b');
+            let nchunks = r.split_once(':').map(|(_, b)| if b.is_empty() { 0 } else { b.split('+').count() }).unwrap_or(0) as u64;
+            let special = rng.below(20);
+            if special == 0 && is_bin {
+                ops.push(format!("e{}!{}", rng.range(0, nchunks), r));
+                continue;
+            }
+            let rolls = size + len > limit;
+            if special == 1 && faults_ok {
+                let mut kk = rng.range(0, count);
+                if compress && kk == count {
+                    kk = count + 1;
+                }
+                ops.push(format!("f{}!{}", kk, r));
+                // a failed rotation leaves the file in place (model and statement decide; the generator only tracks an estimate)
+                size = if rolls && kk < count.max(1) { size + len } else if rolls { 0 } else { size + len };
+            } else if special == 2 {
+                ops.push(format!("g!{}", r));
+                size = if rolls { 0 } else { size + len };
+            } else {
+                ops.push(r);
+                size = if rolls { 0 } else { size + len };
+            }
+        }
+    }
+    format!("seq6\t{}\t{}", case.render(), enc_list(",", &ops))
+}
 
 pub fn gen(rng: &mut Rng, n: usize, thorough: bool, emit: &mut dyn FnMut(String)) {
     // deterministic block: every limit × pre-existing size around the limit × both modes,
@@ -33,7 +395,7 @@ pub fn gen(rng: &mut Rng, n: usize, thorough: bool, emit: &mut dyn FnMut(String)
                     let mut ops: Vec<String> = vec![];
                     let mut id = 1;
                     let mut push = |ops: &mut Vec<String>, sizes: Vec<u64>| {
-                        ops.push(RecSpec::Bin { id, sizes }.render());
+                        ops.push(bin(id, sizes));
                         id += 1;
                     };
                     push(&mut ops, vec![0]);
@@ -48,7 +410,9 @@ pub fn gen(rng: &mut Rng, n: usize, thorough: bool, emit: &mut dyn FnMut(String)
                     push(&mut ops, vec![1023, 1, 1]);
                     ops.push("r".to_owned());
                     push(&mut ops, vec![1]);
+                    // the same history through both executors (`seq`: C05's probe; `seq6`: configuration path, all consultations)
                     emit(format!("seq\t{}\t{}", case.render(), enc_list(",", &ops)));
+                    emit(format!("seq6\t{}\t{}", case.render(), enc_list(",", &ops)));
                 }
             }
         }
@@ -65,24 +429,58 @@ pub fn gen(rng: &mut Rng, n: usize, thorough: bool, emit: &mut dyn FnMut(String)
                     roll: RollSpec::Fw { base: 1, count: 2, pat: 0 },
                     clock0: 1_700_000_000,
                 };
-                let ops = vec![
-                    RecSpec::Bin { id: 1, sizes: vec![0] }.render(),
-                    RecSpec::Bin { id: 2, sizes: vec![1] }.render(),
-                    RecSpec::Bin { id: 3, sizes: vec![1500] }.render(),
-                    "r".to_owned(),
-                    RecSpec::Bin { id: 4, sizes: vec![3, 4] }.render(),
-                ];
+                let ops = vec![bin(1, vec![0]), bin(2, vec![1]), bin(3, vec![1500]), "r".to_owned(), bin(4, vec![3, 4])];
                 emit(format!("seq\t{}\t{}", case.render(), enc_list(",", &ops)));
+                emit(format!("seq6\t{}\t{}", case.render(), enc_list(",", &ops)));
+            }
+        }
+    }
+    // round 4: limits between 1 KiB and 2^63 with histories that land on N and N+1 and roll twice;
+    // multi-byte text whose last character straddles the limit / the 1 KiB buffer; failed encodes;
+    // failed rotations followed by further appends; restarts with a lowered / raised limit and a flipped mode
+    for &limit in &[2048u64, 4096, 4097, 10 * 1024] {
+        for append in [true, false] {
+            for roll in [RollSpec::Delete, RollSpec::Fw { base: 0, count: 2, pat: 0 }, RollSpec::Fw { base: 1, count: 3, pat: 2 }] {
+                let case = Case {
+                    append,
+                    pre_active: Some(limit - 1500),
+                    pre_arch: vec![],
+                    trig: TrigSpec::Size(limit),
+                    roll: roll.clone(),
+                    clock0: 1_700_000_000,
+                };
+                let fw = matches!(roll, RollSpec::Fw { .. });
+                let room = if append { 1500 } else { limit };
+                let mut ops = vec![
+                    RecSpec::Text { id: 1, text: text_of_bytes(room - 2, limit) }.render(), // shown = N-2
+                    RecSpec::Text { id: 2, text: "é".to_owned() }.render(),                 // shown = N exactly: no roll
+                    format!("e0!{}", bin(3, vec![5])),                                        // failed encode: nothing consulted
+                    RecSpec::Text { id: 4, text: "😀".to_owned() }.render(),                // N+4 > N: rolls
+                    bin(5, vec![limit]),                                                      // shown = N on a fresh file: no roll
+                    bin(6, vec![1]),                                                          // shown = N+1: rolls
+                    bin(7, vec![1024, limit - 1024 + 1]),                                     // one record > N: rolls at once
+                    format!("R{}:{}", if append { "a" } else { "t" }, 3),                    // limit lowered to 3
+                    bin(8, vec![2]),
+                    bin(9, vec![2]),                                                          // 4 > 3: rolls
+                    format!("R{}:{}", if append { "t" } else { "a" }, limit),                // mode flipped, limit restored
+                    bin(10, vec![7]),
+                ];
+                if fw {
+                    ops.push(format!("f0!{}", bin(11, vec![limit])));                         // rotation fails: file stays over the limit
+                    ops.push(bin(12, vec![1]));                                               // … and the next append rolls again
+                }
+                ops.push(format!("g!{}", bin(13, vec![limit + 1])));                          // roller reports Err after its work
+                ops.push(bin(14, vec![1]));
+                emit(format!("seq6\t{}\t{}", case.render(), enc_list(",", &ops)));
             }
         }
     }
     for _ in 0..n {
+        emit(gen_seq6(rng, thorough));
+    }
+    for _ in 0..(n / 3).max(10) {
         emit(c05::gen_seq_case(rng, thorough, TrigChoice::Size));
     }
-}
-
-pub fn exec(fields: &[&str]) -> String {
-    c05::exec(fields)
 }
 
 /// child-process entry point (`verif-harness child c06 …`); not needed by this property
